@@ -305,7 +305,7 @@ class rampstep(sym.Function):
 
             if val >= 0 and val < 1:
                 return val
-            elif val > 1:
+            elif val >= 1:
                 return 1
             else:
                 return 0
